@@ -70,6 +70,8 @@ fn u16le(b: &[u8]) -> u16 {
 }
 
 pub fn parse_f64(t: &str) -> Result<f64, String> {
+    // the lexical space of xsd:double / xsd:integer collapses surrounding white space
+    let t = t.trim_matches(|c| matches!(c, ' ' | '\t' | '\n' | '\r'));
     if t.is_empty() {
         return Ok(0.0);
     }
@@ -95,6 +97,7 @@ pub fn parse_f64(t: &str) -> Result<f64, String> {
     Ok(if neg { -v } else { v })
 }
 pub fn parse_f32(t: &str) -> Result<f32, String> {
+    let t = t.trim_matches(|c| matches!(c, ' ' | '\t' | '\n' | '\r'));
     if t.is_empty() {
         return Ok(0.0);
     }
@@ -108,6 +111,7 @@ pub fn parse_f32(t: &str) -> Result<f32, String> {
     }
 }
 pub fn parse_i64(t: &str) -> Result<i64, String> {
+    let t = t.trim_matches(|c| matches!(c, ' ' | '\t' | '\n' | '\r'));
     if t.is_empty() {
         return Ok(0);
     }
